@@ -155,6 +155,7 @@ def seglen(s):
     if k == 'sym': return ('len', s[1])
     if k == 'fill': return s[1]
     if k == 'stored': return seqlen(s[1])
+    if k == 'prefix': return s[1]
     raise ValueError(s)
 
 def seqlen(segs):
@@ -1306,11 +1307,21 @@ class Interp:
 
     def iterate(self, it, fn, e=None):
         """run fn(element) for every element of the iterable, summarising symbolic repetition"""
+        itv = it
+        while isinstance(itv, RefV): itv = itv.place.get()
+        if isinstance(itv, IterV) and itv.kind in ('option', 'optflat') and not itv.maps:
+            # Option::iter(): zero or one element;  .flatten(): the elements of the payload when there is one
+            import builtins_model
+            ov = itv.seq
+            def some(p):
+                if itv.kind == 'option': fn(RefV(Cell(p)) if itv.by_ref else p)
+                else: self.iterate(RefV(Cell(p)) if itv.by_ref else p, fn, e)
+                return UNIT
+            builtins_model.opt_match(self, ov, some, lambda: UNIT, e)
+            return
         seq, by_ref = self.iter_source(it)
         if seq is None:
             self.top('iteration over %r' % (it,), e); return
-        itv = it
-        while isinstance(itv, RefV): itv = itv.place.get()
         if isinstance(itv, IterV) and (itv.maps or itv.enum):
             inner = fn; maps = list(itv.maps)
             def fn(el, inner=inner, maps=maps):
@@ -1560,7 +1571,27 @@ class Interp:
             r = builtins_model.abstract_call(self, name, args, e)
             if r is not None: return r
         if name in self.f.bodies and self.f.bodies[name].get('body') is not None:
+            b_ = self.f.bodies[name]
+            if b_.get('trait') in ('core::ops::Deref', 'core::convert::AsRef', 'core::borrow::Borrow') and args:
+                rv = args[0]
+                while isinstance(rv, RefV): rv = rv.place.get()
+                if isinstance(rv, SeqV) and rv.is_bytes() and self.f.adt(norm_ty(b_.get('self_ty') or '').split('<')[0]):
+                    # the receiver is the abstract byte view that stands for a value of this type (the result of a function
+                    # kept abstract, e.g. create_pkg_length): its byte view is itself
+                    return args[0] if isinstance(args[0], RefV) else RefV(Cell(rv))
             return self.call_local(name, args, e)
+        # a method of a crate-local trait called on a receiver whose concrete type is only known here (e.g. a required
+        # method called from a provided one that was inlined for a concrete Self): the impl for the receiver's type
+        tr = e.get('trait') if isinstance(e, dict) else None
+        if tr and args and (tr in self.f.trait_defaults or any(t_ == tr for (t_, _) in self.f.trait_impls)):
+            rv = args[0]
+            while isinstance(rv, RefV): rv = rv.place.get()
+            rty = rv.ty if isinstance(rv, (StructV, EnumV)) else self.value_type(rv)
+            mname = (e.get('callee_name') or name.split('::')[-1])
+            d = self.f.method(tr, rty, mname) if rty else None
+            if d is None and rty: d = self.f.trait_defaults.get(tr, {}).get(mname)
+            if d and d in self.f.bodies and self.f.bodies[d].get('body') is not None:
+                return self.call_local(d, args, e)
         try:
             r = builtins_model.call(self, name, args, e)
         except (TypeError, AttributeError, KeyError, IndexError, ValueError) as ex:
@@ -1727,6 +1758,10 @@ class Interp:
         flat = norm_segs(seq.segs)
         if flat and all(s[0] == 'int' and s[2] == 1 and s[1] == flat[0][1] for s in flat):
             return [('rep', sub(hi, lo), None, (flat[0],))]
+        # a prefix of symbolic length of a fixed-size buffer (e.g. `&buf[..used]`): kept lazily, resolved wherever the
+        # length becomes a constant (per interval cell)
+        if lo == ZERO and seq.is_bytes() and total[0] == 'c' and total[1] <= 16:
+            return [('prefix', hi, tuple(seq.segs))]
         return None
 
     def aml_call(self, args, e):
